@@ -86,8 +86,11 @@ def far_recipe(cls, rng, tier):
         ngt = -(-(-(-r["cap"] // r["gs"])) // r["gte"])
         r.setdefault("info", {})["gd_bytes"] = 8 * ngt + 4096
         return r, r["gs"] * 512, r["kind"] == "kdmv_stream"
+    kn = {}
+    if rng.random() < 0.25:          # the largest cluster sizes: one L2 table is as large as a cluster (caches sized by bytes must still hold it)
+        kn = {"cluster_bits": rng.choice([20, 21]), "ext": rng.random() < 0.5, "comp": False, "size": rng.choice([3, 5, 9]) << 21}
     r = mod("gen_qcow2").gen_recipe(rng, "quick", nsnaps=0, backing="none",
-                                    jumps=sorted(rng.sample([F32, (1 << 36) + (1 << 33), 1 << 40, 1 << 47, 1 << 55], rng.choice([1, 2]))))
+                                    jumps=sorted(rng.sample([F32, (1 << 36) + (1 << 33), 1 << 40, 1 << 47, 1 << 55], rng.choice([1, 2]))), **kn)
     return r, 1 << r["cluster_bits"], True
 
 
